@@ -116,7 +116,7 @@ def target_spec(draw, kinds=("binary", "continuous")):
 
 
 @st.composite
-def feature_spec(draw, name, kind, blocks, dev_mode, dev_blocks, quant_pools=None, allow_missing=True, cat_flavours=None):
+def feature_spec(draw, name, kind, blocks, dev_mode, dev_blocks, quant_pools=None, allow_missing=True, cat_flavours=None, twin_boost=False):
     n_levels = len(blocks)
     spec = {"name": name, "kind": kind}
     if kind == "continuous":
@@ -164,7 +164,7 @@ def feature_spec(draw, name, kind, blocks, dev_mode, dev_blocks, quant_pools=Non
     # exact ties by construction: modality j copies the weights of modality i in every target level, so
     # both get the same frequency and the same target rate (ties in rates, mirror ties in the measure)
     twins = []
-    if kind != "continuous" and n_mod >= 3 and draw(st.integers(0, 2)) == 0:
+    if kind != "continuous" and n_mod >= 3 and draw(st.integers(0, 2)) <= (1 if twin_boost else 0):
         for _ in range(draw(st.integers(1, 2))):
             i, j = draw(st.integers(0, n_mod - 1)), draw(st.integers(0, n_mod - 1))
             if i != j:
@@ -219,6 +219,7 @@ def sample_case(
     quant_pools=None,
     allow_missing=True,
     cat_flavours=None,
+    twin_boost=False,
 ):
     target = draw(target_spec(kinds=target_kinds))
     blocks = target["blocks"]
@@ -235,7 +236,7 @@ def sample_case(
     for i in range(n_feat):
         kind = draw(st.sampled_from(list(feature_kinds)))
         prefix = {"continuous": "q", "discrete": "d", "ordinal": "o", "categorical": "c"}[kind]
-        features.append(draw(feature_spec(f"{prefix}{i}", kind, blocks, dev_mode, dev_blocks, quant_pools, allow_missing, cat_flavours)))
+        features.append(draw(feature_spec(f"{prefix}{i}", kind, blocks, dev_mode, dev_blocks, quant_pools, allow_missing, cat_flavours, twin_boost)))
     return {
         "target": target,
         "dev_blocks": dev_blocks,
